@@ -462,6 +462,8 @@ class TiltCorr(Corr):
 class C09(Prop):
     id = "C09"
     props_file = "Props/C09.v"
+    # redundant tie (core.gen_tie): these functions, translated from the source on every run, equal the hand model for all inputs
+    gen_tie_theorems = ['GenTie_get_heading_error__clip', 'GenTie_get_heading_error__clip_range', 'GenTie_get_heading_error__clip_range_outside', 'GenTie_get_heading_error', 'GenTie_get_heading_bev', 'GenTie_get_heading_bev_wraps', 'GenTie_get_heading_bev_wraps_outside', 'GenTie_TPMetricsAp_get_value', 'GenTie_TPMetricsAph_get_value', 'GenTie_TPMetricsAph_get_value_outside']
     gen_files = []
     design_ref = "DESIGN.md section 4, C09"
     technique = ("Rocq proof over a piecewise-linear model in pi-units (case split on every comparison + linear arithmetic); in-Coq "
